@@ -75,6 +75,23 @@ def make_items(tier, seed):
         ("bv", "def f(x: Qint[3]) -> bool:\n    x = x ^ 5\n    return x[0] ^ x[2] ^ True\n", "linear"),
         ("simon", "def f(x: Qint[2]) -> Qint[2]:\n    x = x >> 1\n    return x\n", "2to1"),
     ]
+    # black boxes that are constant / balanced / two-to-one by their meaning, not by their text: named
+    # intermediates, comparisons and if-expressions keep scratch work alive inside the oracle
+    deep_boxes = [
+        ("dj", "def f(a: Tuple[Qint[2], Qint[2]]) -> bool:\n    m = a[0] if a[0] > a[1] else a[1]\n    return m < a[0]\n", "constant"),
+        ("dj", "def f(a: Tuple[Qint[2], Qint[2]]) -> bool:\n    m = a[0] if a[0] > a[1] else a[1]\n    return m >= a[1]\n", "constant"),
+        ("dj", "def f(x: Qint[3]) -> bool:\n    t = (x + 1) > x\n    u = x == 7\n    return t or u\n", "constant"),
+        ("dj", "def f(x: Qint[3]) -> bool:\n    m = x >> 1\n    g = m > 1\n    return g ^ x[0]\n", "balanced"),
+        ("dj", "def f(a: Tuple[Qint[2], bool]) -> bool:\n    m = (a[0] + 1) > 2\n    n = m or (a[0] == 0)\n    return n ^ a[1]\n", "balanced"),
+        ("dj", "def f(a: Tuple[bool, bool, bool]) -> bool:\n    t = (a[0] and a[1]) or a[2]\n    u = t and not (a[0] and a[1])\n    return (u or (a[0] and a[1])) != ((a[0] and a[1]) or a[2])\n", "constant"),
+        ("simon", "def f(k: Qint[3]) -> Qint[3]:\n    m = k ^ 7\n    return k if k < m else m\n", "2to1"),
+        ("simon", "def f(k: Qint[3]) -> Qint[3]:\n    m = k ^ 5\n    return k if k < m else m\n", "2to1"),
+        ("bv", "def f(x: Qint[3]) -> bool:\n    t = x[0] ^ x[1]\n    u = t ^ x[1]\n    return u ^ x[2]\n", "linear"),
+    ]
+    for algo_, src, cls in deep_boxes:
+        for opt in ("default", "fast"):
+            items.append({"ob": "contract", "algo": algo_, "src": src, "cls": cls, "opt": opt})
+            items.append({"ob": "endtoend", "algo": algo_, "src": src, "cls": cls, "opt": opt})
     for algo_, src, cls in fast_boxes:
         items.append({"ob": "contract", "algo": algo_, "src": src, "cls": cls, "opt": "fast"})
         items.append({"ob": "endtoend", "algo": algo_, "src": src, "cls": cls, "opt": "fast"})
